@@ -729,4 +729,101 @@ theorem interleave_singletons (l : List α) : interleave (l.map fun a => [a]) = 
     rw [heads_singletons, tails_singletons, interleaveAux_empties]
     simp
 
+/-! ## Part 2: the sync groups
+
+`slowRun ts n` is `SyncGroupBase.run` for the terminal list `ts` with fuel for `n` cycles,
+`fastRun busy index ts n` is `FastSyncGroup.run`, `procRun selfExit n` is `wait_for_process`. -/
+
+theorem wf_mapFmmu (ms : List (Nat × Nat)) (body : Coro Act) : wf (mapFmmu ms body) = wf body := by
+  induction ms with
+  | nil => rfl
+  | cons m ms ih => obtain ⟨t, j⟩ := m; simp [mapFmmu, mapOne, wf, total, ih]
+
+theorem blocks_mapFmmu (ms : List (Nat × Nat)) (body : Coro Act) : blocks (mapFmmu ms body) = blocks body := by
+  induction ms with
+  | nil => rfl
+  | cons m ms ih => obtain ⟨t, j⟩ := m; simp [mapFmmu, mapOne, blocks, ih]
+
+theorem wf_opBody (ts : List Term) (n : Nat) : wf (opBody ts n) = true := by
+  simp [opBody, cycle, wf]
+
+theorem wf_slowRun (ts : List Term) (n : Nat) : wf (slowRun ts n) = true := by
+  simp [slowRun, wf_mapFmmu, slowCore, opBody, safeFin, cycle, wf, total]
+
+theorem blocks_slowRun (ts : List Term) (n : Nat) : blocks (slowRun ts n) = true := by
+  simp [slowRun, blocks_mapFmmu, slowCore, opBody, blocks]
+
+theorem total_lookups (busy : List Nat) (index : Nat) : total (lookups busy index) = true := by
+  induction busy with
+  | nil => rfl
+  | cons b busy ih => simpa [lookups, total] using ih
+
+theorem wf_fastRun (busy : List Nat) (index : Nat) (ts : List Term) (n : Nat) :
+    wf (fastRun busy index ts n) = true := by
+  simp [fastRun, fastBody, wf, total, wf_slowRun, total_wf _ (total_lookups busy index)]
+
+theorem blocks_fastRun (busy : List Nat) (index : Nat) (ts : List Term) (n : Nat) :
+    blocks (fastRun busy index ts n) = true := by
+  simp [fastRun, fastBody, blocks, blocks_slowRun]
+
+/-- **ends cancelled (slow group)**: for every cancellation index, every terminal list and every number
+of cycles the task ends with CancelledError — or the index is never reached and the run is the
+uncancelled one (which is still running: `never_returns_slow`) -/
+theorem ends_cancelled_slow (k : Option Nat) (ts : List Term) (n : Nat) :
+    (runCancel k (slowRun ts n)).2 = .raised .cancelled ∨
+    runCancel k (slowRun ts n) = runCancel none (slowRun ts n) :=
+  ends_cancelled_or_unreached k _ (wf_slowRun ts n)
+
+theorem never_returns_slow (ts : List Term) (n : Nat) : (runCancel none (slowRun ts n)).2 = .pending :=
+  blocks_pending _ (wf_slowRun ts n) (blocks_slowRun ts n) 0
+
+/-- **ends cancelled (fast group)** -/
+theorem ends_cancelled_fast (k : Option Nat) (busy : List Nat) (index : Nat) (ts : List Term) (n : Nat) :
+    (runCancel k (fastRun busy index ts n)).2 = .raised .cancelled ∨
+    runCancel k (fastRun busy index ts n) = runCancel none (fastRun busy index ts n) :=
+  ends_cancelled_or_unreached k _ (wf_fastRun busy index ts n)
+
+theorem never_returns_fast (busy : List Nat) (index : Nat) (ts : List Term) (n : Nat) :
+    (runCancel none (fastRun busy index ts n)).2 = .pending :=
+  blocks_pending _ (wf_fastRun busy index ts n) (blocks_fastRun busy index ts n) 0
+
+/-- the cancellation is reached (index below the number of awaits passed) ⇒ CancelledError -/
+theorem reached_cancelled_slow (m : Nat) (ts : List Term) (n : Nat)
+    (h : m < awaitCount (some m) (slowRun ts n)) : (runCancel (some m) (slowRun ts n)).2 = .raised .cancelled :=
+  (cancelled_iff_delivered (some m) _ (wf_slowRun ts n) 0).2 ⟨m, rfl, Nat.zero_le _, h⟩
+
+/-! ### the shape of one FMMU mapping around a body -/
+
+theorem mapOne_shape (k : Option Nat) (t j : Nat) (body : Coro Act) (i : Nat) (rb : Res Act)
+    (hrb : run k body (i + 1) = rb) :
+    ((run k (mapOne t j body) i).trace = [.slot t j true, .fmmuOn t j, .slot t j false] ∧
+      (run k (mapOne t j body) i).out = .raised .cancelled) ∨
+    ((run k (mapOne t j body) i).trace = [.slot t j true, .fmmuOn t j] ++ rb.trace ∧
+      (run k (mapOne t j body) i).out = .pending ∧ rb.out = .pending) ∨
+    (∃ mid, (mid = [] ∨ mid = [.fmmuOff t j]) ∧
+      (run k (mapOne t j body) i).trace = [.slot t j true, .fmmuOn t j] ++ rb.trace ++ mid ++ [.slot t j false] ∧
+      (run k (mapOne t j body) i).out ≠ .pending ∧ rb.out ≠ .pending) := by
+  by_cases hk : k = some i
+  · left
+    simp [mapOne, run, runAwaits, Res.andThen, Res.finallyDo, hk]
+  · right
+    have e : run k (mapOne t j body) i =
+        (Res.finallyDo ⟨[.slot t j true, .fmmuOn t j] ++ (rb.exitOk (runAwaits k [.fmmuOff t j])).trace,
+          (rb.exitOk (runAwaits k [.fmmuOff t j])).out, (rb.exitOk (runAwaits k [.fmmuOff t j])).idx⟩
+          fun j2 => ⟨[.slot t j false], .normal, j2⟩) := by
+      simp [mapOne, run, runAwaits, Res.andThen, hk, hrb]
+    rw [e]
+    clear e hrb
+    by_cases hp : rb.out = .pending
+    · left
+      simp [Res.finallyDo, Res.exitOk, hp]
+    · right
+      by_cases hn : rb.out = .normal ∨ rb.out = .returned
+      · refine ⟨[.fmmuOff t j], Or.inr rfl, ?_⟩
+        by_cases hc : k = some rb.idx
+        · rcases hn with hn | hn <;> simp [runAwaits, Res.finallyDo, Res.exitOk, hn, hc]
+        · rcases hn with hn | hn <;> simp [runAwaits, Res.finallyDo, Res.exitOk, hn, hc]
+      · refine ⟨[], Or.inl rfl, ?_⟩
+        simp [Res.finallyDo, Res.exitOk, hn, hp]
+
 end Ebv.C24
